@@ -109,7 +109,9 @@ Definition datum_str (d : datum) : str :=
   match d with DInt z => show_Z z | DFlt f => fmt_float f | DStr s => s end.
 
 (* ---------- the same reference evaluator with side effects (C12) ----------
-   Extra leaves: ("rec" k value) records the call k and yields value; ("unset" n) is an unset
+   Extra leaves: ("rec" k value) records the call k and yields value - ("qrec" k value) is the
+   same call inside a double-quoted operand, ("qunset" n) an unset variable inside one;
+   ("unset" n) is an unset
    variable and ("badcmd") an unknown command: evaluating them is an error; ("raw" text) is
    malformed text (the tree has no value: [contains_raw]).  The result is the list of recorded
    calls, in order, and the value or error.  An operand that C semantics does not require is
@@ -123,7 +125,8 @@ Definition tr_bind (m : list str * res datum) (k : datum -> list str * res datum
 Fixpoint eval_tr (t : term) : list str * res datum :=
   match t with
   | TList [TStr tg; TInt z] =>
-      if str_eqb tg (lit "unset") then ([], err (lit "no such variable")) else ([], Ok (DInt z))
+      if str_eqb tg (lit "unset") || str_eqb tg (lit "qunset")
+      then ([], err (lit "no such variable")) else ([], Ok (DInt z))
   | TList [TStr tg] => ([], err (lit "failing command"))                    (* badcmd *)
   | TList [TStr tg; TStr s] =>
       if str_eqb tg (lit "raw") then ([], err (lit "malformed"))
